@@ -1143,9 +1143,9 @@ func c07Render(e *env, files []srcFile, tmpls []*gtemplate, o progOpts, trees []
 		}
 		// the refined counter of the model (misses of declared params of the executing template are not counted):
 		// 0 on every accepted bundle (C07_accepted_no_unbound_lookup), whatever the calls pass
-		rx := e.m.Call("render_x", key, sx(t.full()), "#4000", "(vm 0 (x6b (vi 1)))", ";", dsx)
+		rx := e.m.Call("render_xc", key, sx(t.full()), "#4000", "(vm 0 (x6b (vi 1)))", ";", dsx)
 		if len(rx) >= 2 && len(r) >= 5 {
-			e.res.Histogram["render_x:"+rx[0]]++
+			e.res.Histogram["render_xc:"+rx[0]]++
 			if rx[1] != "#0" {
 				e.res.Fail(hx.Violation{Kind: "mismatch", What: "the refined unbound-lookup counter of the model is not 0 on an accepted bundle", Case: pc,
 					Expected: "#0", Observed: rx[1]}, "")
